@@ -382,6 +382,9 @@ class Report:
     def finish(self):
         # floors: a rule that matched fewer instances than confirmed by hand is an analysis failure
         for rid, floor in self.floors.items():
+            # a rule that already produced an undischarged obligation is reported as such: the floor only guards against vacuous passes
+            if any(o["rule"] == rid and not o["ok"] for o in self.obligations):
+                continue
             if self.counts.get(rid, 0) < floor:
                 raise AnalysisError(
                     f"rule {rid} matched {self.counts.get(rid, 0)} instances, below the floor {floor} confirmed by hand"
